@@ -214,7 +214,7 @@ type pubRec struct {
 }
 
 func runC08(r *kit.Run) {
-	n := int64(r.Scale(420, 100000))
+	n := int64(r.Scale(840, 100000))
 	if r.Build != "plain" {
 		n /= 6
 	}
@@ -260,6 +260,21 @@ func c08Run(r *kit.Run, idx int64, rng *rand.Rand) {
 		// and subscribers that join for good in the middle of the churn: what
 		// is published after their Subscribe returned is theirs
 		nlate += 3 + rng.IntN(4)
+	}
+	// joiner storm: a lossless broker that many subscribers join for good, in
+	// pairs, while the messages flow
+	if churners == 0 && rng.IntN(5) == 0 {
+		cfg.Backend = []string{"queue-unlimited", "channel", "deque-unlimited"}[rng.IntN(3)]
+		cfg.Buffer, cfg.Workers = 0, []int{0, 1, 1, 2}[rng.IntN(4)]
+		if cfg.Backend == "deque-unlimited" && cfg.Workers > 1 {
+			cfg.Workers = 1
+		}
+		procs = brokerProcs(cfg, []int{2, 4, 16}[rng.IntN(3)])
+		nlate = 24 + 2*rng.IntN(9)
+		if nmsg < 200 {
+			nmsg = 200 + rng.IntN(300)
+		}
+		npub = 1 + rng.IntN(2)
 	}
 	strangers := make([]int64, redundant) // publication counts at which a stranger channel is unsubscribed
 	if nstatic+nlate == 0 {
